@@ -110,11 +110,11 @@ class Summary:
     incomplete: bool = False               # recursion cut / budget: result is an under-approximation
 
     def walk(self, chain=()):
-        """All events of the closure with their call chain (list of Site)."""
+        """All events of the closure with their call chain (tuple of the enclosing call events, outermost first)."""
         for ev in self.events:
             yield ev, chain
             if ev.sub is not None:
-                yield from ev.sub.walk(chain + (ev.site,))
+                yield from ev.sub.walk(chain + (ev,))
 
     def walk_own(self):
         for ev in self.events:
